@@ -6,17 +6,21 @@ from .. import dfa_common as dc
 ID = 'C26'
 LEVEL = 'exploration'
 TECHNIQUE = 'generated programs executed by an independent reference interpreter with a read/write trace; trace sets must be subsets of loki defines/uses/live sets per node'
-RULE = ('FProg routines (scalars, arrays, counted/while loops incl. zero-trip, IF/ELSE IF, one-line IF, SELECT CASE, WHERE/ELSEWHERE, calls to '
-        'generated callees whose dummies have every intent incl. none, internal procedures, function references) are interpreted on 4 input '
-        'vectors with a trace; each generated statement/block is mapped to its loki node through the renderer line map; for every dynamic '
-        'execution of the node: variables written (also inside callees, via argument association) must be in defines_symbols, variables read '
-        'before any write to that variable within the node must be in uses_symbols, variables written earlier in the routine execution or '
-        'intent(in/inout) arguments must be in live_symbols. non-trivial = a mapped block/call node some execution of which both reads and '
-        'writes; distinct by case hash')
+RULE = ('FProg routines (scalars, arrays, counted/while loops incl. zero-trip, IF/ELSE IF, one-line IF, SELECT CASE, WHERE/ELSEWHERE, ASSOCIATE blocks '
+        'with whole-variable selectors around statement ranges (30% of the cases), calls to generated callees whose dummies have every intent '
+        'incl. none, function references) are interpreted on 4 input vectors with a trace; each generated statement/block is mapped to its loki '
+        'node through the renderer line map; for every dynamic execution of the node: variables written (also inside callees, via argument '
+        'association) must be in defines_symbols, variables read before any write to that variable within the node must be in uses_symbols, '
+        'variables written earlier in the routine execution or intent(in/inout) arguments must be in live_symbols. non-trivial = a mapped '
+        'block/call node some execution of which both reads and writes; distinct by case hash')
 ASSUMPTIONS = ['variable granularity (the analysis documents that it ignores data space): a partial array write counts as a write of the variable',
                'the DO variable of a loop is exempt (documented: the induction variable is not considered outside the loop)',
-               'the reference interpreter agrees with gfortran on the program outputs (self-checked on a sample of cases in the thorough tier)',
-               'module parameters and callee-local storage are outside the compared sets']
+               'an associate name and its selector are the same variable: loki may report either spelling',
+               'the read/write events of the reference interpreter are those of the statement semantics; its outputs are compared with the '
+               'natively compiled program (gfortran) on a 1/16 (thorough 1/8) sample of the cases - classes selfcheck:*; a mismatch is reported '
+               'as an unlisted harness signature',
+               'module parameters and callee-local storage are outside the compared sets',
+               'internal procedures (host association) are not generated in the search: listed known finding, kept alive by its replay']
 SHARDS = {'quick': 8, 'thorough': 16}
 BUDGET = {'quick': 70, 'thorough': 1500}
 
